@@ -1,8 +1,9 @@
 """C15 — WMO root and group files survive write -> parse (DESIGN.md §6 C15)."""
 import sup
 
-RULE = ("one case = one generated WMO root (first half of the index space) or group (second half), written with WmoWriter for each of the five versions "
-        "Classic, Tbc, Wotlk, Cataclysm, Mop and then converted over all 25 (from, to) pairs. Root: textures, materials (texture offsets into MOTX, "
+RULE = ("one case = one generated WMO root (first half of the index space) or group (second half), written with WmoWriter for each of the eleven versions "
+        "Classic, Tbc, Wotlk, Cataclysm, Mop (MVER 17) and Wod, Legion, Bfa, Shadowlands, Dragonflight, WarWithin (the crate's MVER 18..23) and then converted over "
+        "(from, to) pairs: all 25 among Classic..Mop, of the 96 pairs that involve a later version 12 per case in quick (rotating with the case index), all in thorough. Root: textures, materials (texture offsets into MOTX, "
         "one third pointing into the middle of a string), group infos + names, portals + vertices, portal references, visibility lists, lights, doodad "
         "definitions, doodad sets, skybox, header flags / ambient colour / bounds; group: vertices, normals, texture coordinates, indices, colours, "
         "batches, BSP nodes, liquid, doodad references, header. Every list is independently empty / one element / many (cases 0,1,2 are the uniform "
@@ -14,7 +15,14 @@ RULE = ("one case = one generated WMO root (first half of the index space) or gr
         "sub-chunks tile MOGP and decode (format layouts) to the model's lists; (a) WmoParser::parse_root and parse_wmo projections == model projection, "
         "texture_offset_index_map maps byte offsets to indices, WmoGroupParser::parse_group called; (b) write(parse(write(m))) compared chunk by chunk "
         "with write(m); (d) convert_root / convert_group result == the same content built for the target version (projection and bytes). "
-        "Signature = clause|item|trigger predicate|version set ('all' = every version on which that comparison was made). "
+        "(e) the other readers: parse_wmo_with_metadata and root_parser::parse_root_file (on the discovery of discover_wmo_chunks) read every field as parse_wmo did, "
+        "discover_wmo_chunks / the metadata list exactly the (id, offset, size) triples the walker found and report a clean file (roots and groups). "
+        "(f) editor sessions on every root (version = case index mod 11): up to two generated groups loaded, 1..16 operations out of add/remove material, group, doodad, "
+        "doodad set, texture, add_vertex / remove_vertex, recalculate_group_bounding_box / recalculate_global_bounding_box and edits through root_mut, material_mut, "
+        "texture_mut, group_mut (refused operations in between), then save_root + save_group: list lengths == tally of accepted operations, vertex list after "
+        "add/remove == list before +/- that vertex, MOHD counts == records in the file, MOHD bounds == the session's bounds, WmoParser(save_root) == the session's "
+        "root and parse_wmo(save_group) == the session's group (item by item). "
+        "Signature = clause|item|trigger predicate|version set ('all' = every version on which that comparison was made; 'v18+' = every checked version from Wod on). "
         "distinct = distinct (kind, list-emptiness pattern, predicate values) among executed cases; every executed case is non-trivial "
         "(at least 5 objects written and walked).")
 
@@ -26,11 +34,16 @@ ASSUME = [
     "conversions start from an object that is valid for the source version by the crate's own feature model (no skybox before Wotlk, no SHADOW_BATCH material flags before Mop, "
     "no MOUNT_ALLOWED group flag before Legion, no scene-graph/motion/exterior-BSP group flags before Cataclysm); 'representable in both' = valid for min(from, to)",
     "group-info bounding boxes are finite and non-zero so that 'bounds == union of group boxes' is well defined; BSP plane normals are axis-aligned unit vectors (all a MOBN node can carry); liquid grids are at least 1x1",
+    "bit 0x2 of WmoLiquid.flags is the crate's marker for its Wod+ liquid layout: in conversions across the Mop/Wod boundary that bit is left to the converter, every other bit must stay",
+    "the walker's MLIQ layout is the format's (MVER 17): for groups written for Wod and later (the crate's own 16-byte liquid vertices under its own MVER numbers) liquid is "
+    "judged by framing and presence only (tallied as liquid_layout_from_wod_on_observed_not_judged)",
+    "editor sessions: vertices added through the editor are ordinary finite numbers; the saved root's bounds / doodad name offsets are compared through WmoParser only where the "
+    "parser's and writer's known substitutions are the identity (bounds == union of the group boxes, offsets canonical), otherwise through the walker (bounds) or not at all (tallied)",
     "trigger predicates (names-differ, bbox-free, doodad-offsets-free, skybox-set, materials>0, liquid-present, header-36-bytes) only partition cases for known findings; the complementary sub-space is compared strictly",
 ]
 
 EXCLUSIONS = [
-    "WmoRoot.version: Classic..Mop are all written as MVER 17 and read back as Classic; not compared after parsing (conversions do check the version field)",
+    "WmoRoot.version: Classic..Mop are all written as MVER 17 and read back as Classic; compared as MVER number (item 'mver': from_raw(to_raw(target)) for WmoParser, the raw number for parse_wmo); conversions check the version field itself",
     "WmoRoot.texture_offset_index_map: derived index; not in the projection, checked separately (every texture's MOTX byte offset -> its index) for both parsers",
     "WmoMaterial.framebuffer_blend: no MOMT field is written from it and the parser fills in Color::default()",
     "WmoLight.properties: derived by the parser from light_type (constant defaults); nothing on disk",
@@ -64,7 +77,7 @@ def run(tier, seed, scratch, t0):
     return sup.simple_check("C15", "vh-formats", "c15", tier, seed, scratch, t0, "exploration", RULE, ASSUME,
                             nshards=16, case_timeout=120, min_cases=200,
                             post=_samples,
-                            extra_cov={"exclusions": EXCLUSIONS, "versions": ["Classic", "Tbc", "Wotlk", "Cataclysm", "Mop"]})
+                            extra_cov={"exclusions": EXCLUSIONS, "versions": ["Classic", "Tbc", "Wotlk", "Cataclysm", "Mop", "Wod", "Legion", "Bfa", "Shadowlands", "Dragonflight", "WarWithin"]})
 
 
 def replay(rp, scratch):
